@@ -338,3 +338,14 @@ package nfa
 //@   loop 1: invariant forall j :: 0 <= j && j < i ==> sub.Rune[j] <= 127
 //@   loop 1: invariant fresh(ranges) || ranges == nil
 //@   loop 1: decreases len(sub.Rune) - i
+
+// ---- the NFA simulation as the fallback of other engines: semantics ASSUMED, named by uninterpreted functions ----
+//@ uninterpreted spec func pvFound(p *PikeVM, h []byte) bool
+//@ uninterpreted spec func pvStart(p *PikeVM, h []byte) int
+//@ uninterpreted spec func pvEnd(p *PikeVM, h []byte) int
+//@ trusted func (*PikeVM).Search
+//@   requires p != nil
+//@   modifies family H:nfa.PikeVM, family E:nfa.searchThread, family E:int, family E:uint32, family H:internal/sparse.SparseSet
+//@   ensures result2 == pvFound(p, haystack)
+//@   ensures result2 ==> result0 == pvStart(p, haystack) && result1 == pvEnd(p, haystack) && 0 <= result0 && result0 <= result1 && result1 <= len(haystack)
+//@   ensures !result2 ==> result0 == -1 && result1 == -1
